@@ -369,7 +369,33 @@ def fx9():
     return Fixture(top, [((6,), True), ((6,), False), ((9,), True)], ops, describe, widgets)
 
 
-FIXTURES = [("frame-icons", fx7), ("hidden-children", fx9), ("shared-children", fx8), ("frame-listbox-tall", lambda: fx1("tall-last")), ("frame-listbox", fx1), ("filler-pile", fx2), ("overlay", fx3), ("scrollbar", fx4), ("padding", fx5), ("twice-uncached", fx6)]
+def fx10():
+    """containers that are empty (and therefore falsy: they define __len__) when their ancestors are first rendered"""
+    walker = urwid.SimpleFocusListWalker([])
+    lb = urwid.ListBox(walker)
+    fr = urwid.Frame(lb, header=urwid.Text("log"))
+    cols = urwid.Columns([])
+    gf = urwid.GridFlow([], 3, 1, 0, "left")
+    inner = urwid.Pile([])
+    top = urwid.Pile([("pack", urwid.Text("head")), ("pack", cols), ("pack", gf), ("pack", inner), ("weight", 1, fr)])
+    ops = {
+        "walker.append": lambda: walker.append(urwid.Text("first")) if len(walker) < 2 else None,
+        "walker.clear": lambda: walker.__delitem__(slice(None)),
+        "cols.append": lambda: cols.contents.append((urwid.Text("cell"), cols.options())) if len(cols.contents) < 2 else None,
+        "cols.clear": lambda: cols.contents.__setitem__(slice(None), []),
+        "gf.append": lambda: gf.contents.append((urwid.Text("g"), gf.options())) if len(gf.contents) < 2 else None,
+        "inner.append": lambda: inner.contents.append((urwid.Text("in"), inner.options())) if len(inner.contents) < 2 else None,
+        "inner.clear": lambda: inner.contents.__setitem__(slice(None), []),
+    }
+    widgets = [top, fr, lb, cols, gf, inner]
+
+    def describe():
+        return (len(walker), len(cols.contents), len(gf.contents), len(inner.contents))
+
+    return Fixture(top, [((8, 6), False), ((8, 6), True), ((10, 7), False)], ops, describe, widgets)
+
+
+FIXTURES = [("frame-icons", fx7), ("empty-containers", fx10), ("hidden-children", fx9), ("shared-children", fx8), ("frame-listbox-tall", lambda: fx1("tall-last")), ("frame-listbox", fx1), ("filler-pile", fx2), ("overlay", fx3), ("scrollbar", fx4), ("padding", fx5), ("twice-uncached", fx6)]
 
 
 def snapshot(c):
